@@ -831,6 +831,8 @@ package rueidis
 // invalidation (single keys or flush) never unregisters a pending flight and keeps the index object; closing wakes them
 //@ func lru.purge
 //@   modifies *
+//@   ensures [C06 no-completed-reply-of-the-key-survives-its-invalidation] kc != nil ==> (forall a string :: (has(kc.cache, a) && kc.cache[a] != nil) ==> ptrof(kc.cache[a].Value, *cacheEntry).val.typ == 0)
+//@   loop 0: invariant [C06] forall a string :: (visited(a) && has(kc.cache, a) && kc.cache[a] != nil) ==> ptrof(kc.cache[a].Value, *cacheEntry).val.typ == 0
 //@   ensures [C09 invalidation-keeps-the-index-object] c.store == old(c.store) && c.list == old(c.list)
 //@   assert [C09 invalidation-drops-only-completed-entries] at Remove: e.val.typ != 0 && arg1 == ele
 //@   assert [C09 invalidation-unregisters-only-completed-entries] at delete#1: ele == nil || e.val.typ != 0
@@ -839,6 +841,15 @@ package rueidis
 //@   ensures [C09 invalidation-keeps-the-index-that-holds-the-pending-flights] c.store == old(c.store) && c.list == old(c.list)
 //@   loop 0: invariant [C09] c.store == old(c.store) && c.list == old(c.list)
 //@   loop 1: invariant [C09] c.store == old(c.store) && c.list == old(c.list)
+//@ func lru.Delete #c06
+//@   modifies *
+//@   assert [C06 every-invalidated-key-is-purged-with-its-own-entry-table] at purge#2: arg1 == k.string() && arg2 == c.store[k.string()]
+//@ func adapter.del #c06
+//@   modifies *
+//@   assert [C06 every-completed-reply-of-the-key-is-removed-from-the-store] at Del: e == nil && arg1 == key + cmd && arg0 == a.store
+//@ func adapter.Delete #c06
+//@   modifies *
+//@   assert [C06 every-invalidated-key-is-deleted] at del#2: arg1 == k.string()
 //@ func lru.Close #c09
 //@   modifies *
 //@   assert [C09 closing-wakes-every-pending-flight-with-the-error] at close: e.val.typ == 0 && e.err == err && arg0 == e.ch
@@ -959,6 +970,43 @@ package rueidis
 //@   assert [C23 replica-connection-only-for-replica-clients-or-opted-in-batches] at Load#2: arg0 == &c.rConn && !c.replica && sendToReplica
 //@   assert [C23 everything-else-goes-to-the-installed-master] at Load#3: arg0 == &c.mConn && !c.replica
 //@   assert [C23 everything-else-goes-to-the-installed-master] at Load#4: arg0 == &c.mConn && !c.replica
+
+// ---------------------------------------------------------------------------------------------
+// C26 / C27 / C06 — the push dispatcher (pipe.go handlePush), for every push frame: a message goes to the registry of its own
+// kind under its own channel (pattern) with exactly the frame's fields; confirmations go to the registry of their kind;
+// an invalidation reaches the cache and every callback with exactly the keys the server sent (nil for a flush), the cache first.
+//@ func subs.Confirm #c26
+//@   modifies *
+//@   assert [C26 every-subscriber-callback-of-the-channel-gets-the-confirmation] at fn: arg0 == sub
+//@ func subs.Unsubscribe #c26
+//@   modifies *
+//@   assert [C26 every-subscriber-callback-of-the-channel-gets-the-unsubscription] at fn: arg0 == sub
+//@   assert [C26 every-subscriber-of-the-unsubscribed-channel-is-removed] at remove: arg0 == s && arg1 == id
+//@   assert [C26 the-unsubscribed-channel-is-forgotten] at delete: arg1 == sub.Channel
+//@ func subs.remove #c26
+//@   modifies *
+//@   assert [C26 a-removed-subscriber-leaves-every-channel-it-listened-on] at delete#1: arg1 == id
+//@   assert [C26 a-removed-subscribers-stream-is-ended-once] at close: arg0 == sb.ch && calls(close) == 0
+//@   assert [C26 a-removed-subscriber-is-forgotten] at delete#2: arg1 == id
+//@ func pipe.handlePush
+//@   modifies *
+//@   assert [C26 a-message-is-published-to-the-channel-registry-under-its-channel] at Publish#1: values[0].string() == "message" && len(values) >= 3 && arg0 == p.nsubs && arg1 == values[1].string() && arg2.Channel == values[1].string() && arg2.Message == values[2].string() && arg2.Pattern == ""
+//@   assert [C26 a-pattern-message-is-published-to-the-pattern-registry-under-its-pattern] at Publish#2: values[0].string() == "pmessage" && len(values) >= 4 && arg0 == p.psubs && arg1 == values[1].string() && arg2.Pattern == values[1].string() && arg2.Channel == values[2].string() && arg2.Message == values[3].string()
+//@   assert [C26 a-shard-message-is-published-to-the-shard-registry-under-its-channel] at Publish#3: values[0].string() == "smessage" && len(values) >= 3 && arg0 == p.ssubs && arg1 == values[1].string() && arg2.Channel == values[1].string() && arg2.Message == values[2].string() && arg2.Pattern == ""
+//@   assert [C26 an-unsubscribe-confirmation-goes-to-the-registry-of-its-kind] at Unsubscribe#1: values[0].string() == "unsubscribe" && arg0 == p.nsubs && arg1.Kind == "unsubscribe" && arg1.Channel == values[1].string() && arg1.Count == values[2].intlen
+//@   assert [C26 an-unsubscribe-confirmation-goes-to-the-registry-of-its-kind] at Unsubscribe#2: values[0].string() == "punsubscribe" && arg0 == p.psubs && arg1.Kind == "punsubscribe" && arg1.Channel == values[1].string() && arg1.Count == values[2].intlen
+//@   assert [C26 an-unsubscribe-confirmation-goes-to-the-registry-of-its-kind] at Unsubscribe#3: values[0].string() == "sunsubscribe" && arg0 == p.ssubs && arg1.Kind == "sunsubscribe" && arg1.Channel == values[1].string() && arg1.Count == values[2].intlen
+//@   assert [C26 a-subscribe-confirmation-goes-to-the-registry-of-its-kind] at Confirm#1: values[0].string() == "subscribe" && arg0 == p.nsubs && arg1.Kind == "subscribe" && arg1.Channel == values[1].string() && arg1.Count == values[2].intlen
+//@   assert [C26 a-subscribe-confirmation-goes-to-the-registry-of-its-kind] at Confirm#2: values[0].string() == "psubscribe" && arg0 == p.psubs && arg1.Kind == "psubscribe" && arg1.Channel == values[1].string() && arg1.Count == values[2].intlen
+//@   assert [C26 a-subscribe-confirmation-goes-to-the-registry-of-its-kind] at Confirm#3: values[0].string() == "ssubscribe" && arg0 == p.ssubs && arg1.Kind == "ssubscribe" && arg1.Channel == values[1].string() && arg1.Count == values[2].intlen
+//@   ensures [C26 confirmations-are-replies-data-pushes-are-not] (calls(Publish) >= 1 || calls(Delete) >= 1) ==> (!reply && !unsubscribe)
+//@   ensures [C27 C06 only-an-invalidation-frame-reaches-the-cache-and-the-callbacks] (calls(Delete) >= 1 || calls(onInvalidations) >= 1) ==> (len(values) >= 2 && old(values[0].string()) == "invalidate")
+//@   assert [C27 C06 a-flush-invalidation-empties-the-cache] at Delete#1: values[0].string() == "invalidate" && values[1].IsNil() && arg1 == nil
+//@   assert [C27 C06 the-cache-drops-exactly-the-keys-the-server-sent] at Delete#2: values[0].string() == "invalidate" && !values[1].IsNil() && arg1 == values[1].values()
+//@   assert [C27 the-connection-callback-sees-exactly-the-servers-invalidation-after-the-cache-dropped-it] at onInvalidations#1: values[1].IsNil() && arg0 == nil && (p.cache == nil || calls(Delete) == 1)
+//@   assert [C27 the-connection-callback-sees-exactly-the-servers-invalidation-after-the-cache-dropped-it] at onInvalidations#2: !values[1].IsNil() && arg0 == values[1].values() && (p.cache == nil || calls(Delete) == 1)
+//@   assert [C27 the-hook-sees-exactly-the-servers-invalidation] at onInvalidations#3: values[1].IsNil() && arg0 == nil
+//@   assert [C27 the-hook-sees-exactly-the-servers-invalidation] at onInvalidations#4: !values[1].IsNil() && arg0 == values[1].values()
 
 // ---------------------------------------------------------------------------------------------
 // C07 — cached replies expire at the earlier of the client TTL and the server PTTL (message.go, lru.go).
